@@ -120,6 +120,11 @@ def _busy_repr(P):
     representation change — ('opt', field of type Option<SimTime>) holding the finish time while busy"""
     a = P.adts.get(CH + 'ChannelInner') or {}
     flds = [fd for v in a.get('variants', []) for fd in v['fields']]
+    # (the state may live in a private sub-struct of ChannelInner: `transmitter: Transmitter { busy, finish_time }`)
+    for fd in list(flds):
+        sub = P.adts.get(fd['ty'].split('<')[0])
+        if sub is not None and fd['ty'].startswith(CH) and sub.get('kind') == 'struct':
+            flds += [x for v in sub.get('variants', []) for x in v['fields']]
     for fd in flds:
         if fd['n'] == 'busy' and fd['ty'] == 'bool':
             return ('flag', 'busy')
@@ -130,6 +135,51 @@ def _busy_repr(P):
         if fd['ty'] == 'bool':
             return ('flag', fd['n'])
     return ('flag', 'busy')
+
+
+def _busy_adt(P):
+    """(path, adt) of the struct that holds the busy state"""
+    name = _busy_repr(P)[1]
+    for k in [CH + 'ChannelInner'] + sorted(x for x in P.adts if x.startswith(CH)):
+        a = P.adts.get(k) or {}
+        if any(fd['n'] == name for v in a.get('variants', []) for fd in v['fields']):
+            return k, a
+    return None, None
+
+
+def _finish_field(P):
+    """role: the field recording when the current transmission ends (pinned: `transmission_finish_time`): the SimTime field of the
+    struct that holds the busy flag"""
+    k, a = _busy_adt(P)
+    flds = [fd for v in (a or {}).get('variants', []) for fd in v['fields']]
+    for fd in flds:
+        if fd['n'] == 'transmission_finish_time':
+            return fd['n']
+    ts = [fd['n'] for fd in flds if fd['ty'] == 'des::time::SimTime']
+    return ts[0] if len(ts) == 1 else 'transmission_finish_time'
+
+
+def _whole_state_stores(P, f):
+    """stores that overwrite the whole struct holding the busy state (`*self = Self::IDLE`): list of (block, {field: value tree})"""
+    k, a = _busy_adt(P)
+    out = []
+    if k is None:
+        return out
+    for b in sorted(f.reachable()):
+        for i, st in enumerate(f.stmts(b)):
+            if st['k'] != 'assign' or not st['p']['pr'] or st['p']['pr'][-1]['k'] not in ('deref', 'field'):
+                continue
+            ty = f.local_ty(st['p']['l']) if st['p']['pr'] == [{'k': 'deref'}] else (st['p']['pr'][-1].get('ty') or '')
+            if ty.lstrip('&').replace('mut ', '').strip().split('<')[0] != k:
+                continue
+            v = peel(f.expr_rvalue(st['r'], b, i))
+            if v[0] == 'constdef' and v[1] in P.fns:
+                cf = P.fns[v[1]]
+                rb = cf.return_blocks()
+                v = peel(cf.expr_local(0, rb[0], 'T')) if len(rb) == 1 else v
+            if v[0] == 'agg' and len(v) > 3 and len(v[3]) == len(v[2]):
+                out.append((b, dict(zip(v[3], v[2]))))
+    return out
 
 
 def _busy_truth(P, a):
@@ -153,6 +203,10 @@ def _busy_writes(P, f, effs=None):
         ws = [(e[5], e[4]) for e in effs if e[0] == 'w' and e[2] == name]
     else:
         ws = [(b, f.expr_rvalue(st['r'], b, i)) for (b, i, st) in f.writes_to_field(name)]
+    if f is not None and effs is None:
+        for b, comp in _whole_state_stores(P, f):
+            if name in comp:
+                ws.append((b, comp[name]))
     for b, v in ws:
         v = peel(v) if v is not None else None
         if kind == 'flag':
@@ -401,8 +455,8 @@ def r4_idle_path(ctx):
         n += 1
         # "busy until T": the helper call, or (helper inlined) the two stores busy := true, transmission_finish_time := T
         setb = [('call', e[2][1]) for e in effs if e[0] == 'c' and e[1].name == CH + 'Channel::set_busy_until']
-        w_busy = [e for e in effs if e[0] == 'w' and e[2] == 'busy' and e[4] is not None and peel(e[4]) == ('int', 1)]
-        w_fin = [e for e in effs if e[0] == 'w' and e[2] == 'transmission_finish_time']
+        w_busy = [e for e in effs if e[0] == 'w' and e[2] == _busy_repr(ctx.P)[1] and e[4] is not None and peel(e[4]) == ('int', 1)]
+        w_fin = [e for e in effs if e[0] == 'w' and e[2] == _finish_field(ctx.P)]
         if not setb and len(w_busy) == 1 and len(w_fin) == 1:
             setb = [('stores', w_fin[0][4])]
         if not setb and _busy_repr(ctx.P)[0] == 'opt':
@@ -432,7 +486,7 @@ def r4_idle_path(ctx):
     g = ctx.P.fns.get(CH + 'Channel::set_busy_until')   # may have been inlined into send_message (handled above)
     if g:
         if _busy_repr(ctx.P)[0] == 'flag':
-            wb = g.writes_to_field('busy'); wt = g.writes_to_field('transmission_finish_time')
+            wb = g.writes_to_field(_busy_repr(ctx.P)[1]); wt = g.writes_to_field(_finish_field(ctx.P))
             okb = len(wb) == 1 and len(wt) == 1
         else:
             sets_, _cl = _busy_writes(ctx.P, g)
@@ -445,13 +499,8 @@ def r5_unbusy(ctx):
     f = ctx.anchor(CH + 'Channel::unbusy')
     if not f:
         return
-    wb = f.writes_to_field(_busy_repr(ctx.P)[1])
-    if _busy_repr(ctx.P)[0] == 'opt':
-        sets_, clears_ = _busy_writes(ctx.P, f)
-        ctx.check(len(clears_) >= 1 and not sets_, 'clears-busy', 'unbusy clears the busy flag', f.where())
-    else:
-      ctx.check(len(wb) >= 1 and all('false' in show(f.expr_rvalue(st['r'], b, i)) or f.expr_rvalue(st['r'], b, i) == ('int', 0) for b, i, st in wb), 'clears-busy',
-              'unbusy clears the busy flag', f.where())
+    sets_, clears_ = _busy_writes(ctx.P, f)
+    ctx.check(len(clears_) >= 1 and not sets_, 'clears-busy', 'unbusy clears the busy flag', f.where())
     n = 0
     for path, outcome, decs in fn_paths(ctx, f):
         if outcome != 'return':
